@@ -353,6 +353,18 @@ def run_shard(desc, seed, tier, col):
             T = ir.mk('SET', comps=[ir.comp('a', ir.mk(ks[1])), ir.comp('b', outer)])
             sel = d.pick(['p', 'q'])
             v = {'a': gen.draw_value(d, T['comps'][0]['t']), 'b': ('x', (sel, gen.draw_value(d, inner['alts'][0 if sel == 'p' else 1]['t'])))}
+        elif d.pct(8):
+            # DEFAULT components whose value is easily mistaken for another one: bit strings with leading / trailing zero bits,
+            # empty strings, zero - present and equal to the default, so that "set explicitly" and "left out" must agree
+            kinds = [('BITSTRING', d.pick([(4, 3), (9, 1), (8, 0), (3, 4), (0, 0), (16, 256)])), ('OCTETSTRING', d.pick([b'', b'\x00', b'\x00\x00'])),
+                     ('INTEGER', d.pick([0, -1, 128, -129])), ('UTF8String', d.pick(['', ' ', 'a'])), ('BOOLEAN', d.pick([False, True]))]
+            picked = [kinds[i] for i in sorted(set(d.int(0, 4) for _ in range(3)))]
+            T = ir.mk(d.pick(['SEQUENCE', 'SET']), comps=[ir.comp('x', ir.mk('INTEGER', tags=[['I', 'C', 9]]))] +
+                      [ir.comp('abcde'[i], ir.mk(k, tags=[['I', 'C', i]]), 'def', dv) for i, (k, dv) in enumerate(picked)])
+            v = {'x': d.int(0, 9)}
+            for c in T['comps'][1:]:
+                if d.pct(75):
+                    v[c['name']] = c['d']
         return T, v, draw(st.data())
 
     def body(x):
